@@ -587,18 +587,19 @@ def bigset_script(path, cms, big):
     with open(path, 'w') as f:
         for cm in cms:
             desc = cm in (1, 3)
+            mod = 2 if cm >= 2 else 1      # a coarse comparator orders by key // 2: elements and absent keys in distinct classes
+            step = 2 * mod
             for n in sizes:
-                keys = [2 * i for i in range(n)]
+                keys = [step * i for i in range(n)]
                 f.write(L('ctorRange', cm=cm, it='ptr', vs=keys))
                 ranks = list(range(n + 1)) if n <= 40 else sorted(set([0, 1, n // 3, n // 2, n - 1, n] + list(range(0, n, max(1, n // 7)))))
                 for r in ranks:
-                    present = 2 * r if r < n else None
-                    absent = 2 * r - 1 if r > 0 else -1 if False else None
-                    for key in [k for k in (present, 2 * r + 1) if k is not None and k >= 0]:
+                    present = step * r if r < n else None
+                    for key in [k for k in (present, step * r + mod) if k is not None and k >= 0]:
                         for op in ('find', 'contains', 'count', 'lowerBound', 'upperBound', 'equalRange', 'findK', 'lowerBoundK'):
                             f.write(L(op, v=key))
                     # insertion of the absent key 2r+1 with the correct hint, then restore
-                    key = 2 * r + 1 if r < n else 2 * n + 1
+                    key = step * r + mod if r < n else step * n + mod
                     if r <= n:
                         # position of the first element not less than key in iteration order
                         pos = (r + 1 if r < n else n) if not desc else (n - r - 1 if r < n else 0)
@@ -613,20 +614,20 @@ def bigset_script(path, cms, big):
                                 f.write(L('insertHint', v=key, h=h))
                                 f.write(L('eraseKey', v=key))
                                 if r < n:
-                                    f.write(L('emplaceHint', v=2 * r, h=h))
+                                    f.write(L('emplaceHint', v=step * r, h=h))
                         # a node handle re-inserted with the correct hint: extract an element, give it the value, insert
                         if r < n and (n <= 40 or r in (0, 1, n // 2, n - 1)):
-                            f.write(L('extractKey', v=2 * r))
+                            f.write(L('extractKey', v=step * r))
                             f.write(L('nodeSetValue', v=key))
                             # (the set has one element less: the position of the first element not less than key moves)
                             hp = (r if not desc else n - r - 1)
                             f.write(L('insertNodeHint', h=max(0, min(n - 1, hp))))
                             f.write(L('eraseKey', v=key))
-                            f.write(L('insert', v=2 * r))
+                            f.write(L('insert', v=step * r))
                 # heterogeneous keys equivalent to MANY elements (class v of width w: the elements with (key / mod) / w == v)
                 if n > 0:
                     for w in sorted(set([2, 6, 16, 2 * n + 2, max(2, n), max(2, n // 2)])):
-                        top = (2 * n - 1) // (2 if cm >= 2 else 1) // w
+                        top = (step * n - 1) // mod // w
                         for v in sorted(set([0, top // 2, top, top + 1])):
                             for op in ('countC', 'containsC', 'lowerBoundC', 'upperBoundC'):
                                 f.write(L(op, v=v, n=w))
